@@ -100,6 +100,18 @@ CLAIMED['C11'] = dict(
     note='Trusted: `<:` uninterpreted (C07), NameMap contract (C15), World::implicit_imported_interfaces as an arbitrary input, M2S, z3. Counterexamples of the binary check are replayed through wac_types::validate_target on built Types; those of the resolution-time check are rule-level only.',
     design='DESIGN.md section 3 / C11')
 
+CLAIMED['C04'] = dict(
+    technique='symbolic execution of rustc MIR (M2S) of the argument-naming kernels of AstResolver; z3 decides agreement with the LANGUAGE.md rules; whole documents replayed through Document::parse + resolve',
+    text='Kernel-level, bounded: (1) find_matching_interface_name on real byte strings (2 externs, names <= 9/11 bytes over an alphabet containing : / @ . - ): returns '
+         'exactly the unique extern whose last path segment with the version stripped equals the identifier, and nothing when an extern has that exact name; '
+         '(2) inferred_instantiation_arg and named_instantiation_arg over abstract names: the chosen argument name follows the documented precedence for every '
+         'resolver state (interface id, then import / aliased export name, then last-segment match, then the identifier; string names verbatim); '
+         '(3) spread_instantiation_arg with <= 2/3 expected imports and bound arguments: fills exactly the unspecified imports the instance exports, in import order, '
+         'never overwrites, rejects non-instances and ineffective spreads. The rest of evaluation (new_expr argument table and type checks, implicit imports, access '
+         'expressions, export name inference, exports) is NOT claimed; the quantifier over whole documents is replaced by these kernels plus a fixed battery of documents.',
+    note='Trusted: M2S, z3, State::local_item / Item::kind / alias_export / expr as arbitrary results, IndexMap association-list model. Documents in the battery are examples, not the claim.',
+    design='DESIGN.md section 3 / C04')
+
 NOT_APPLICABLE = {
  'C01': 'validity is defined by an external 60 kLoC validator over whole-pipeline output; neither it nor the encoder can be executed symbolically here (DESIGN.md section 4)',
  'C05': 'needs wit-component as reference encoder and the validator subtype relation as comparison; out of reach of symbolic execution (DESIGN.md section 4)',
